@@ -189,4 +189,106 @@ example : Auxmath.factorize 64 (2 ^ 63) = [(2, 63)] := by decide +kernel
 example : Auxmath.factorize 64 (7 * 7 * 11 * 65537) = [(7, 2), (11, 1), (65537, 1)] := by
   decide +kernel
 
+/-! ### CombinIter -/
+
+/-- `Next()` is the lexicographic successor: from a combination `s` (strictly increasing
+    `k`-list over `{0..n-1}`) it produces a combination `s'` with `s < s'` and no combination
+    strictly in between; it reports the end only at the lexicographically last combination.
+    (`List.Lex (· < ·)` is the order `<` of `List Nat`.) -/
+theorem next_spec {n k : Nat} {s : List Nat}
+    (hs : s.length = k ∧ s.Pairwise (· < ·) ∧ ∀ x ∈ s, x < n) :
+    (∀ s', Auxmath.next n s = some s' →
+      (s'.length = k ∧ s'.Pairwise (· < ·) ∧ ∀ x ∈ s', x < n) ∧ List.Lex (· < ·) s s' ∧
+      ∀ t, (t.length = k ∧ t.Pairwise (· < ·) ∧ ∀ x ∈ t, x < n) →
+        ¬ (List.Lex (· < ·) s t ∧ List.Lex (· < ·) t s')) ∧
+    (Auxmath.next n s = none →
+      ∀ t, (t.length = k ∧ t.Pairwise (· < ·) ∧ ∀ x ∈ t, x < n) → ¬ List.Lex (· < ·) s t) := by
+  have hv := (valid_iff n k s).2 hs
+  constructor
+  · intro s' h
+    obtain ⟨a, b, c⟩ := next_some h hv
+    refine ⟨(valid_iff n k s').1 a, b, ?_⟩
+    rintro t ht ⟨h1, h2⟩
+    rcases c t ((valid_iff n k t).2 ht) h1 with h3 | h3
+    · exact lexLt_irrefl _ (lexLt_trans h3 h2)
+    · subst h3; exact lexLt_irrefl _ h2
+  · intro h t ht hlt
+    rcases next_none h hv t ((valid_iff n k t).2 ht) with h3 | h3
+    · exact lexLt_irrefl _ (lexLt_trans hlt h3)
+    · subst h3; exact lexLt_irrefl _ hlt
+
+/-- A combination iterator for `(n,k)` with `0 ≤ k ≤ n` yields every `k`-element subset of
+    `{0,…,n-1}` exactly once, in lexicographic order, each as a strictly increasing index list:
+    the produced sequence is strictly increasing in the lexicographic order (hence without
+    repetition), and its members are exactly the strictly increasing lists of length `k` with
+    entries `< n`; there are `n choose k` of them. -/
+theorem combinations_spec {n k : Nat} (hk : k ≤ n) :
+    (Auxmath.combinations n k).Pairwise (List.Lex (· < ·)) ∧
+    (∀ s, s ∈ Auxmath.combinations n k ↔
+      s.length = k ∧ s.Pairwise (· < ·) ∧ ∀ x ∈ s, x < n) ∧
+    (Auxmath.combinations n k).Nodup ∧
+    (Auxmath.combinations n k).length = n.choose k := by
+  obtain ⟨hpw, hmem⟩ := combinations_props hk
+  refine ⟨hpw, fun s => (hmem s).trans (valid_iff n k s), ?_, combinations_length hk⟩
+  exact hpw.imp (fun {a b} h (hab : a = b) => lexLt_irrefl a (by rw [← hab] at h; exact h))
+
+/-- the two conditions determine the sequence: any lexicographically strictly sorted list with the
+    same members is the iterator's output -/
+theorem combinations_unique {n k : Nat} (hk : k ≤ n) (L : List (List Nat))
+    (hsorted : L.Pairwise (List.Lex (· < ·)))
+    (hmem : ∀ s, s ∈ L ↔ s.length = k ∧ s.Pairwise (· < ·) ∧ ∀ x ∈ s, x < n) :
+    L = Auxmath.combinations n k := by
+  obtain ⟨hpw, hm, hnd, _⟩ := combinations_spec hk
+  have hndL : L.Nodup :=
+    hsorted.imp (fun {a b} h (hab : a = b) => lexLt_irrefl a (by rw [← hab] at h; exact h))
+  have hperm : L.Perm (Auxmath.combinations n k) :=
+    (List.perm_ext_iff_of_nodup hndL hnd).2 (fun s => (hmem s).trans (hm s).symm)
+  exact hperm.eq_of_pairwise
+    (fun a b _ _ h1 h2 => absurd (lexLt_trans h1 h2) (lexLt_irrefl _)) hsorted hpw
+
+/-- each subset exactly once: sending an index list to its set of indices is a bijection from the
+    iterator's output onto the `k`-subsets of `{0..n-1}` -/
+theorem combinations_subsets {n k : Nat} (hk : k ≤ n) :
+    ((Auxmath.combinations n k).map List.toFinset).Nodup ∧
+    ∀ f : Finset Nat, f ∈ (Auxmath.combinations n k).map List.toFinset ↔
+      f ∈ (Finset.range n).powersetCard k := by
+  obtain ⟨_, hm, hnd, _⟩ := combinations_spec hk
+  constructor
+  · refine (List.nodup_map_iff_inj_on hnd).2 ?_
+    intro s hs t ht hst
+    obtain ⟨_, hs2, _⟩ := (hm s).1 hs
+    obtain ⟨_, ht2, _⟩ := (hm t).1 ht
+    have hs' : s.Pairwise (· ≤ ·) := hs2.imp (fun h => Nat.le_of_lt h)
+    have ht' : t.Pairwise (· ≤ ·) := ht2.imp (fun h => Nat.le_of_lt h)
+    have hsn : s.Nodup := hs2.imp (fun h => Nat.ne_of_lt h)
+    have htn : t.Nodup := ht2.imp (fun h => Nat.ne_of_lt h)
+    rw [← (List.toFinset_sort (· ≤ ·) hsn).2 hs', ← (List.toFinset_sort (· ≤ ·) htn).2 ht', hst]
+  · intro f
+    rw [List.mem_map, Finset.mem_powersetCard]
+    constructor
+    · rintro ⟨s, hs, rfl⟩
+      obtain ⟨h1, h2, h3⟩ := (hm s).1 hs
+      have hsn : s.Nodup := h2.imp (fun h => Nat.ne_of_lt h)
+      exact ⟨fun x hx => Finset.mem_range.2 (h3 x (List.mem_toFinset.1 hx)),
+        by rw [List.toFinset_card_of_nodup hsn, h1]⟩
+    · rintro ⟨hsub, hcard⟩
+      have hv : Valid n k (f.sort (· ≤ ·)) :=
+        mem_validSet.1 (Finset.mem_image.2 ⟨f, Finset.mem_powersetCard.2 ⟨hsub, hcard⟩, rfl⟩)
+      exact ⟨f.sort (· ≤ ·), (hm _).2 ((valid_iff n k _).1 hv), Finset.sort_toFinset f (· ≤ ·)⟩
+
+example : (2 : Nat) ≤ 4 := by norm_num
+example : Auxmath.combinations 4 2 = [[0, 1], [0, 2], [0, 3], [1, 2], [1, 3], [2, 3]] := by
+  decide +kernel
+example : Auxmath.combinations 3 0 = [[]] := by decide +kernel
+example : Auxmath.combinations 3 3 = [[0, 1, 2]] := by decide +kernel
+example : Auxmath.next 6 [0, 4, 5] = some [1, 2, 3] := by decide +kernel
+-- hypotheses of `next_spec` hold for that state (n = 6, k = 3)
+example : ([0, 4, 5] : List Nat).length = 3 ∧ ([0, 4, 5] : List Nat).Pairwise (· < ·) ∧
+    ∀ x ∈ ([0, 4, 5] : List Nat), x < 6 := by decide
+-- hypotheses of `combinations_unique` are satisfiable (by the iterator's own output)
+example : ∃ L : List (List Nat), L.Pairwise (List.Lex (· < ·)) ∧
+    ∀ s, s ∈ L ↔ s.length = 2 ∧ s.Pairwise (· < ·) ∧ ∀ x ∈ s, x < 4 :=
+  ⟨_, (combinations_spec (by norm_num : 2 ≤ 4)).1, (combinations_spec (by norm_num)).2.1⟩
+example : Auxmath.next 6 [3, 4, 5] = none := by decide +kernel
+
 end Algobra.C19
